@@ -1,8 +1,10 @@
 ---- MODULE MC_Links ----
 EXTENDS Links
 c_Dataset == {"d1", "d2", "d3"}
-c_Comp == {"d1.a", "d1.b", "d2.a", "d2.b", "d3.a", "d3.b"}
-c_Owner == [c \in c_Comp |-> CASE c \in {"d1.a", "d1.b"} -> "d1" [] c \in {"d2.a", "d2.b"} -> "d2" [] OTHER -> "d3"]
+c_Comp == {"d1.a", "d1.b", "d1.c", "d2.a", "d2.b", "d3.a", "d3.b"}
+\* d1.c is a derived attribute of d1, computed from d1.a
+c_DependsOn == [c \in c_Comp |-> IF c = "d1.c" THEN {"d1.a"} ELSE {}]
+c_Owner == [c \in c_Comp |-> CASE c \in {"d1.a", "d1.b", "d1.c"} -> "d1" [] c \in {"d2.a", "d2.b"} -> "d2" [] OTHER -> "d3"]
 c_Initial == {"d1.a", "d1.b", "d2.a", "d2.b", "d3.a"}
 L(id, from, to, inv) == [id |-> id, from |-> from, to |-> to, inv |-> inv]
 c_Menu == {
@@ -15,7 +17,8 @@ c_Menu == {
     L("L7", <<"d2.a">>, "d2.b", FALSE),         \* inside one dataset
     L("L8", <<"d3.b">>, "d1.b", TRUE),
     L("L9", <<"d2.a", "d3.a">>, "d1.b", FALSE),   \* two inputs owned by different datasets
-    L("L10", <<"d1.a", "d1.b">>, "d2.b", TRUE) }  \* many-to-one helper (MultiLink) with a backward function: d2.b defines d1.a and d1.b
+    L("L10", <<"d1.a", "d1.b">>, "d2.b", TRUE),
+    L("L11", <<"d1.c">>, "d3.b", TRUE) }          \* a two-way link from a derived attribute of d1  \* many-to-one helper (MultiLink) with a backward function: d2.b defines d1.a and d1.b
 c_MenuSmall == {l \in c_Menu : l.id \in {"L1", "L2", "L3", "L4", "L6"}}
 c_All == c_Dataset
 c_None == {}
